@@ -279,3 +279,34 @@ pub fn case_game(rd: &mut Rd) -> R<String> {
         _ => run_scripted(script, |r| canon(r), || games::battalion1944::query(&ip, Some(port))),
     })
 }
+
+/// family 33: minecraft. variant 0 auto, 1 java, 2 bedrock, 3 legacy, 4 legacy 1.6, 5 legacy 1.4, 6 legacy beta 1.8
+pub fn case_minecraft(rd: &mut Rd) -> R<String> {
+    use gamedig::games::minecraft::{protocol, LegacyGroup, RequestSettings};
+    let variant = rd.u8()?;
+    let port = rd.u16()?;
+    let rs = rd_opt(rd, |rd| {
+        let hostname = String::from_utf8(rd.bytes16()?.to_vec()).map_err(|_| ())?;
+        let protocol_version = rd.i32()?;
+        Ok(RequestSettings {
+            hostname,
+            protocol_version,
+        })
+    })?;
+    let ts = rd_tsettings(rd)?;
+    let script = rd_script(rd)?;
+    let ts = match ts {
+        Ok(t) => t,
+        Err(e) => return Ok(format!("{e}|")),
+    };
+    let a = addr(port);
+    Ok(match variant {
+        0 => run_scripted(script, |r| canon(r), || protocol::query(&a, ts, rs)),
+        1 => run_scripted(script, |r| canon(r), || protocol::query_java(&a, ts, rs)),
+        2 => run_scripted(script, |r| canon(r), || protocol::query_bedrock(&a, ts)),
+        3 => run_scripted(script, |r| canon(r), || protocol::query_legacy(&a, ts)),
+        4 => run_scripted(script, |r| canon(r), || protocol::query_legacy_specific(LegacyGroup::V1_6, &a, ts)),
+        5 => run_scripted(script, |r| canon(r), || protocol::query_legacy_specific(LegacyGroup::V1_4, &a, ts)),
+        _ => run_scripted(script, |r| canon(r), || protocol::query_legacy_specific(LegacyGroup::VB1_8, &a, ts)),
+    })
+}
